@@ -36,7 +36,7 @@ func New(storeDriver store.Store, manager balance.Manager) *VipnodePool {
 		Store:            storeDriver,
 		BalanceManager:   manager,
 		remoteHosts:      map[store.NodeID]jsonrpc2.Service{},
-		remoteNodeLookup: map[jsonrpc2.Service]store.NodeID{},
+		remoteNodeLookup: map[jsonrpc2.Service][]store.NodeID{},
 	}
 }
 
@@ -57,7 +57,7 @@ type VipnodePool struct {
 
 	mu               sync.Mutex
 	remoteHosts      map[store.NodeID]jsonrpc2.Service
-	remoteNodeLookup map[jsonrpc2.Service]store.NodeID // Reverse lookup
+	remoteNodeLookup map[jsonrpc2.Service][]store.NodeID // Reverse lookup: every host that registered over the connection
 }
 
 // TODO: Move CloseRemote and NumRemotes, and remoteHosts etc into a separate struct?
@@ -67,16 +67,18 @@ func (p *VipnodePool) CloseRemote(remote jsonrpc2.Service) error {
 	p.mu.Lock()
 	defer p.mu.Unlock()
 
-	nodeID, ok := p.remoteNodeLookup[remote]
+	nodeIDs, ok := p.remoteNodeLookup[remote]
 	if !ok {
 		// Nothing to clean up
 		return nil
 	}
 
 	delete(p.remoteNodeLookup, remote)
-	if p.remoteHosts[nodeID] == remote {
-		// Only forget the host if it has not re-registered on a newer connection.
-		delete(p.remoteHosts, nodeID)
+	for _, nodeID := range nodeIDs {
+		if p.remoteHosts[nodeID] == remote {
+			// Only forget the host if it has not re-registered on a newer connection.
+			delete(p.remoteHosts, nodeID)
+		}
 	}
 
 	return nil
@@ -330,8 +332,10 @@ func (p *VipnodePool) connect(ctx context.Context, nodeID string, req ConnectReq
 		}
 
 		p.mu.Lock()
-		p.remoteHosts[node.ID] = service
-		p.remoteNodeLookup[service] = node.ID
+		if p.remoteHosts[node.ID] != service {
+			p.remoteHosts[node.ID] = service
+			p.remoteNodeLookup[service] = append(p.remoteNodeLookup[service], node.ID)
+		}
 		p.mu.Unlock()
 	}
 
